@@ -83,7 +83,7 @@ var clauseKeywords = map[string]bool{
 	"func": true, "iface": true, "extern": true, "lemma": true, "cover": true,
 	"use": true, "ghost": true, "requires": true, "ensures": true, "ensures-assumed": true, "maintains": true, "assert-before": true, "assert-store": true, "exit-update": true, "assumes": true, "snapshot": true, "modifies": true,
 	"decreases": true, "loop": true, "trusted": true, "inline": true, "noinline": true,
-	"implements": true, "tags": true, "params": true, "extra": true, "reveal": true, "reveal-post": true, "reveal-before": true,
+	"implements": true, "tags": true, "params": true, "extra": true, "reveal": true, "reveal-post": true, "reveal-before": true, "assume-after": true,
 }
 
 func splitKwTags(tok string) (string, []string) {
@@ -420,6 +420,15 @@ func (cs *ContractSet) parseFile(path string, pkgPath string, raw bool) error {
 					return err
 				}
 				cur.Extra[kw] = append(cur.Extra[kw], x)
+			case "assume-after":
+				callee := toks[i]
+				i++
+				label := readLabel()
+				x, err := readSx()
+				if err != nil {
+					return err
+				}
+				cur.Extra[kw] = append(cur.Extra[kw], &Sx{IsL: true, List: []*Sx{{Atom: callee}, {Atom: label}, x}})
 			case "reveal-before":
 				callee := toks[i]
 				i++
